@@ -42,6 +42,85 @@ impl FixedOutput for Spy {
 }
 impl HashMarker for Spy {}
 
+// ---------------------------------------------------------------------------------------------
+// "exotic" mode: permissive enum-symbol / field-name validators are installed (a documented public
+// setting), and the field names and enum symbols of every scenario are respelt with characters
+// outside ASCII (combining marks, Thai, ZWJ, hyphen): the canonical form must carry them as UTF-8.
+// ---------------------------------------------------------------------------------------------
+struct AnySymbol;
+impl apache_avro::validator::EnumSymbolNameValidator for AnySymbol {
+    fn validate(&self, symbol: &str) -> apache_avro::AvroResult<()> {
+        if symbol.is_empty() { Err(apache_avro::Error::new(apache_avro::error::Details::EnumSymbolName(symbol.to_string()))) } else { Ok(()) }
+    }
+}
+struct AnyField;
+impl apache_avro::validator::RecordFieldNameValidator for AnyField {
+    fn validate(&self, field_name: &str) -> apache_avro::AvroResult<()> {
+        if field_name.is_empty() { Err(apache_avro::Error::new(apache_avro::error::Details::FieldName(field_name.to_string()))) } else { Ok(()) }
+    }
+}
+fn install_exotic() -> bool {
+    apache_avro::validator::set_enum_symbol_name_validator(Box::new(AnySymbol)).is_ok()
+        && apache_avro::validator::set_record_field_name_validator(Box::new(AnyField)).is_ok()
+}
+fn exotic_name(s: &str) -> String {
+    match s.bytes().map(|b| b as usize).sum::<usize>() % 6 {
+        0 => format!("{s}\u{308}"),          // combining diaeresis (NFD spelling)
+        1 => format!("Zu\u{308}{s}"),
+        2 => format!("{s}\u{e01}\u{e34}"),    // Thai consonant + vowel sign
+        3 => format!("{s}\u{200d}x"),        // zero width joiner
+        4 => format!("{s}-\u{e9}\u{ad}"),     // hyphen, precomposed letter, soft hyphen
+        _ => format!("{s}\u{fe0f}"),          // variation selector
+    }
+}
+fn collect_symbols(t: &J, acc: &mut std::collections::HashSet<String>) {
+    match t["j"].as_str() {
+        Some("obj") => {
+            for p in t["kv"].as_array().unwrap() {
+                if p[0] == "symbols" && p[1]["j"] == "arr" {
+                    for x in p[1]["items"].as_array().unwrap() {
+                        if let Some(s) = x["s"].as_str() { acc.insert(s.to_string()); }
+                    }
+                }
+                collect_symbols(&p[1], acc);
+            }
+        }
+        Some("arr") => t["items"].as_array().unwrap().iter().for_each(|x| collect_symbols(x, acc)),
+        _ => {}
+    }
+}
+fn exotic_tree(t: &J, syms: &std::collections::HashSet<String>, in_fields: bool) -> J {
+    let ren = |x: &J| -> J { match x["s"].as_str() { Some(s) if x["j"] == "str" => jsontree::str_term(&exotic_name(s)), _ => x.clone() } };
+    match t["j"].as_str() {
+        Some("obj") => {
+            let kv: Vec<J> = t["kv"].as_array().unwrap().iter().map(|p| {
+                let k = p[0].as_str().unwrap_or("");
+                let v = &p[1];
+                let nv = if k == "symbols" && v["j"] == "arr" {
+                    json!({"j":"arr","items": v["items"].as_array().unwrap().iter().map(&ren).collect::<Vec<_>>()})
+                } else if k == "default" && v["j"] == "str" && v["s"].as_str().is_some_and(|s| syms.contains(s)) {
+                    ren(v)
+                } else if k == "name" && in_fields {
+                    ren(v)
+                } else if k == "fields" && v["j"] == "arr" {
+                    json!({"j":"arr","items": v["items"].as_array().unwrap().iter().map(|f| exotic_tree(f, syms, true)).collect::<Vec<_>>()})
+                } else {
+                    exotic_tree(v, syms, false)
+                };
+                json!([k, nv])
+            }).collect();
+            json!({"j":"obj","kv":kv})
+        }
+        Some("arr") => json!({"j":"arr","items": t["items"].as_array().unwrap().iter().map(|x| exotic_tree(x, syms, false)).collect::<Vec<_>>()}),
+        _ => t.clone(),
+    }
+}
+fn exotic(t: &J) -> J {
+    let mut syms = std::collections::HashSet::new();
+    collect_symbols(t, &mut syms);
+    exotic_tree(t, &syms, false)
+}
+
 fn style_of(idx: usize) -> u8 {
     (idx % 4) as u8
 }
@@ -153,8 +232,13 @@ fn load(a: &Args) -> Vec<J> {
 fn cmd_child(a: &Args) -> i32 {
     let out = std::io::stdout();
     let mut out = std::io::BufWriter::new(out.lock());
+    let ex = a.get("exotic").is_some();
+    if ex && !install_exotic() {
+        eprintln!("could not install the permissive validators");
+        return 2;
+    }
     for (idx, scn) in load(a).iter().enumerate() {
-        let t = normalise(&scn["t"]);
+        let t = if ex { exotic(&normalise(&scn["t"])) } else { normalise(&scn["t"]) };
         let m = measure(&t, style_of(idx));
         writeln!(out, "{}", json!({"ok": m["parse_ok"], "panic": m["panic"], "cbytes": m["cbytes"], "rabin": m["rabin"], "md5": m["md5"], "sha256": m["sha256"]})).unwrap();
     }
@@ -166,7 +250,15 @@ fn cmd_run(a: &Args) -> i32 {
     let scns = load(a);
     // second process first: same scenarios, fresh address space / hash seeds / once-cells
     let exe = std::env::current_exe().expect("current_exe");
-    let child = std::process::Command::new(exe).arg("child").arg("--scn").arg(a.req("scn")).output().expect("spawn child");
+    let ex = a.get("exotic").is_some();
+    if ex && !install_exotic() {
+        eprintln!("could not install the permissive validators");
+        return 2;
+    }
+    let mut cmd = std::process::Command::new(exe);
+    cmd.arg("child").arg("--scn").arg(a.req("scn"));
+    if ex { cmd.arg("--exotic").arg("1"); }
+    let child = cmd.output().expect("spawn child");
     if !child.status.success() {
         eprintln!("child failed: {}", String::from_utf8_lossy(&child.stderr));
         return 2;
@@ -178,8 +270,8 @@ fn cmd_run(a: &Args) -> i32 {
     }
     let mut out = open_out(a.req("out"));
     for (idx, scn) in scns.iter().enumerate() {
-        let base = normalise(&scn["base"]);
-        let t = normalise(&scn["t"]);
+        let (base, t) = if ex { (exotic(&normalise(&scn["base"])), exotic(&normalise(&scn["t"]))) }
+                        else { (normalise(&scn["base"]), normalise(&scn["t"])) };
         let style = style_of(idx);
         let mut ev = measure(&t, style);
         ev["ev"] = J::from("canon");
